@@ -156,7 +156,7 @@ def unsealed(b, sym):
     same_tree(b, before, b.snapshot(""), tag)
 
 
-def harnesses(tier):
+def _harnesses(tier):
     return [Harness("c14-unsealed", unsealed, frontier=3, budget_s=600,
                     what="10 read-only command forms on a tree whose root has no ascmhl folder (optionally with a sealed sub-folder)",
                     bounds={"tree": "R/{a.txt,d/{b.txt},z/}"}, outside=[]),
@@ -166,3 +166,8 @@ def harnesses(tier):
                     bounds={"layouts": "flat | child at A/AA | children at A and B", "commands": READONLY + ["flatten", "create", "create -n", "create -sf", "create -dr", "create on a new root", "create -i <folder containing a nested history>"]},
                     outside=["mtime of directories that receive new entries (updated by the kernel; excluded from real snapshots)",
                              "behaviour when the process is killed (C15)"])]
+
+
+def harnesses(tier):
+    from . import tour
+    return list(_harnesses(tier)) + tour.harnesses(tier, "C14")
